@@ -314,7 +314,32 @@ fn reentry_case(kind: SubjKind, via: &str, what: Reenter, during_replay: bool) -
   let via = via.to_string();
   let r = catch_unwind(AssertUnwindSafe(move || {
     let sbj = AnySubject::new(kind);
+    // second input of the combining operators: a plain subject, fed before the first item
+    let other = subjects::Subject::<i64>::new();
     let o = match via.as_str() {
+      "zip[b]" => sbj.observable().zip(&[other.observable()]).map(|v| v[0]),
+      "combine_latest[b]" => sbj.observable().combine_latest(&[other.observable()], |v| v[0]),
+      "merge[b]" => sbj.observable().merge(&[other.observable()]),
+      "amb[b]" => sbj.observable().amb(&[other.observable()]),
+      "concat[b]" => sbj.observable().concat(&[other.observable()]),
+      "take_until[b]" => sbj.observable().take_until(other.observable()),
+      "skip_until[b]" => sbj.observable().skip_until(other.observable()),
+      "sample[b] (callback runs inside b.next)" => sbj.observable().sample(other.observable()),
+      "sequence_equal[b]" => sbj.observable().sequence_equal(&[other.observable()]).map(|b| b as i64 + 1),
+      "switch_on_next[b]" => sbj.observable().switch_on_next(other.observable()),
+      "flat_map(just)" => sbj.observable().flat_map(|x| observables::just(x)),
+      "flat_map(b)" => {
+        let o2 = other.clone();
+        sbj.observable().flat_map(move |_| o2.observable())
+      }
+      "take_last(2)" => sbj.observable().take_last(2),
+      "skip_last(1)" => sbj.observable().skip_last(1),
+      "reduce" => sbj.observable().reduce(|(a, b)| a + b),
+      "retry(2)" => sbj.observable().retry(2),
+      "tap" => sbj.observable().tap(|_| {}, |_| {}, || {}),
+      "start_with" => sbj.observable().start_with(vec![1i64].into_iter()),
+      "default_if_empty" => sbj.observable().default_if_empty(1),
+      "filter" => sbj.observable().filter(|_| true),
       "direct" => sbj.observable(),
       "map" => sbj.observable().map(|x| x),
       "scan" => sbj.observable().scan(|(a, b)| a + b),
@@ -364,10 +389,21 @@ fn reentry_case(kind: SubjKind, via: &str, what: Reenter, during_replay: bool) -
       move || l3.lock().unwrap().push("C".into()),
     );
     *slot.lock().unwrap() = Some(sub);
+    match via.as_str() {
+      "zip[b]" | "combine_latest[b]" | "skip_until[b]" => other.next(1),
+      "sequence_equal[b]" => other.next(2),
+      _ => {}
+    }
     if !during_replay {
       sbj.next(1);
     }
+    match via.as_str() {
+      "sample[b] (callback runs inside b.next)" | "flat_map(b)" => other.next(1),
+      _ => {}
+    }
     sbj.next(2);
+    other.next(3);
+    other.complete();
     sbj.complete();
   }));
   set_monitor_mode(false);
@@ -421,7 +457,11 @@ fn sync_connectable_case(which: &str, downstream: &str) -> Result<String, String
 }
 
 pub fn reentrancy(r: &mut Report) {
-  let vias = ["direct", "map", "scan", "take(3)", "window_with_count(2)", "buffer_with_count(1)", "distinct_until_changed", "group_by", "merge", "observe_on(default)"];
+  let vias = [
+    "direct", "map", "scan", "take(3)", "window_with_count(2)", "buffer_with_count(1)", "distinct_until_changed", "group_by", "merge", "observe_on(default)",
+    "zip[b]", "combine_latest[b]", "merge[b]", "amb[b]", "concat[b]", "take_until[b]", "skip_until[b]", "sample[b] (callback runs inside b.next)", "sequence_equal[b]",
+    "switch_on_next[b]", "flat_map(just)", "flat_map(b)", "take_last(2)", "skip_last(1)", "reduce", "retry(2)", "tap", "start_with", "default_if_empty", "filter",
+  ];
   let mut runs = 0u64;
   let mut samples = vec![];
   for kind in [SubjKind::Plain, SubjKind::Behavior, SubjKind::Replay, SubjKind::Async] {
